@@ -152,6 +152,20 @@ func c15() {
 			}
 		}
 	}
+	// prefix CONTENT: code that looks back from the end of the buffer (exponent clean-up, requoting, rollback) must
+	// not look into, or rewrite, the caller's bytes
+	c15vals := []any{5.0, float32(7), 0.5, 1e-7, 1e21, -3.0, 0.0, 7, int8(-5), uint64(9), "x", "12345678", true, nil, []byte("ab"), []float64{1, 2}, map[string]float64{"e-0": 5},
+		struct {
+			A float64 `json:"a,string"`
+			B int     `json:"b,string"`
+		}{5, 5}}
+	for _, pre := range []string{"1e-0", "2.5e-0", "node-e-0", "e-", "1e-", "[e-0", "\"", "\\", "{\"a\":", "\"\\\"", "0", "-", "e+0", "1e-07", "\xff\xfe", "\"e-0"} {
+		for vi := range c15vals {
+			for sk := 0; sk < 5; sk++ {
+				jAppendPrefix([]byte(pre), vi, c15vals[vi], sk)
+			}
+		}
+	}
 	// the manual grow-and-reslice of encodeBytes, observed exactly (result length, capacity, whether the destination's
 	// array was kept): compared with the Coq model Json/AppendModel.v encode_bytes
 	for _, l := range []int{0, 1, 5, 64} {
@@ -193,4 +207,38 @@ func jEncBytes(l, c, vlen int) {
 		return fmt.Sprintf("%d %d %v", len(out), cap(out), !kept)
 	})
 	emit("j.encbytes", args, impl, "-")
+}
+
+// jAppendPrefix: Append onto a destination holding the given bytes (not filler): same contract as checkAppend
+func jAppendPrefix(prefix []byte, vi int, x any, spareKind int) {
+	if !mine() {
+		skip()
+		return
+	}
+	args := fmt.Sprintf("%s %d %d", hexs(prefix), vi, spareKind)
+	trace("j.appendpre", args)
+	impl := guarded(func() string {
+		base, berr := json.Append(nil, x, json.EscapeHTML|json.SortMapKeys)
+		spare := spareFor(spareKind, len(base))
+		backing := make([]byte, len(prefix)+spare)
+		copy(backing, prefix)
+		for i := len(prefix); i < len(backing); i++ {
+			backing[i] = 0xEE
+		}
+		out, err := json.Append(backing[:len(prefix):len(prefix)+spare], x, json.EscapeHTML|json.SortMapKeys)
+		if !bytes.Equal(backing[:len(prefix)], prefix) {
+			return "PREFIX-BYTES-OVERWRITTEN"
+		}
+		if len(out) < len(prefix) || !bytes.Equal(out[:len(prefix)], prefix) {
+			return "RESULT-DOES-NOT-BEGIN-WITH-B"
+		}
+		if (err != nil) != (berr != nil) {
+			return "ERROR-DIFFERS"
+		}
+		if err == nil && !bytes.Equal(out[len(prefix):], base) {
+			return "REMAINDER-DIFFERS-FROM-APPEND-NIL " + string(out[len(prefix):]) + " vs " + string(base)
+		}
+		return "ok"
+	})
+	emit("j.appendpre", args, impl, "ok")
 }
